@@ -436,7 +436,8 @@ def search(rng, tier, broken):
         s = (arch.gen_multi(rng, 40 + i % 7) if i % 5 == 4 else
              arch.gen_history(rng, 40 + i % 7, rng.randint(12, 40), rng.random() < 0.2))
         ops = s.ops; k0 = s.k0; s.close(); tried += 1
-        if any(o[0] == 'new' and o[1] <= k0 for o in ops): continue       # reused context ids: outside the property
+        ids = [k0] + [o[1] for o in ops if o[0] == 'new']
+        if len(set(ids)) != len(ids): continue                            # reused context ids: outside the property
         f = run(k0, ops)
         if f: return {'tried': tried, 'failing': f, 'known_kinds_seen': known_seen}
     return {'tried': tried, 'failing': None, 'known_kinds_seen': known_seen}
